@@ -279,6 +279,7 @@ pub fn run_case(case: &Case, stats: &mut Stats, cnt: &mut C15Counters) -> CaseRe
 
         // ---------------- the step itself on the real world, with the frame condition
         let before = slot_digests(&w);
+        let (la, lb) = operand_layouts(&w, op);
         env.reset();
         simalloc::track(true);
         let r = catch_unwind(AssertUnwindSafe(|| exec(&mut w, op, &mut env)));
@@ -297,6 +298,7 @@ pub fn run_case(case: &Case, stats: &mut Stats, cnt: &mut C15Counters) -> CaseRe
         if env.skipped {
             stats.skipped += 1;
         }
+        record_sig(stats, &w, op, &env, prec.as_ref().map(|p| p.class()).unwrap_or(""), la, lb);
         let after = slot_digests(&w);
         // slots allowed to change: declared results; operands of take-forms; anything if the step panicked
         // part-way (documented take-and-replace semantics) is restricted to the operand/target slots too
